@@ -47,7 +47,7 @@ func vfBindable(proto, addr string, within time.Duration) error {
 }
 
 func TestVfC18RunReleases(t *testing.T) {
-	st := vfkit.Stats("TestVfC18RunReleases", "in-process run() with 1-6 listeners of generated kinds where listener i cannot bind (address held by the harness) or none fails; oracles: a failed start returns an error (no panic) within 3 s and every address of the listeners before i can be bound again within 1 s; a successful start followed by close() (twice) releases every address within 1 s; non-trivial = failing listener is not the first, or the close case")
+	st := vfkit.Stats("TestVfC18RunReleases", "in-process run() with 1-6 listeners of generated kinds and an optional metrics endpoint, where listener i cannot bind (address held by the harness), or an upstream / domain set / rule is broken, or nothing fails; oracles: a failed start returns an error (no panic) within 3 s and every address of the listeners before i and of the metrics endpoint can be bound again within 1 s; a successful start followed by close() (twice) releases every address within 1 s; non-trivial = failing listener is not the first, or the close case")
 	defer vfkit.Flush()
 	kinds := []string{"udp", "tcp", "gnet", "tls", "http", "fasthttp", "https", "quic"}
 	rapid.Check(t, func(t *rapid.T) {
@@ -71,6 +71,23 @@ func TestVfC18RunReleases(t *testing.T) {
 			addrs = append(addrs, la{proto, sc.Listen, k})
 		}
 		failIdx := rapid.IntRange(-1, n-1).Draw(t, "failIdx")
+		// things run() opens before the listeners: the metrics endpoint (a listening socket of its own) ...
+		if rapid.Bool().Draw(t, "metricsEndpoint") {
+			cfg.Metrics.Addr = fmt.Sprintf("%s:%d", ip, 7100)
+		}
+		// ... and start-up can also fail in a later stage that opens nothing itself, with the metrics endpoint already up
+		failStage := "listener"
+		if failIdx < 0 {
+			failStage = rapid.SampledFrom([]string{"none", "none", "upstream", "domainset", "rule"}).Draw(t, "failStage")
+			switch failStage {
+			case "upstream":
+				cfg.Upstreams = append(cfg.Upstreams, UpstreamConfig{Tag: "bad", Addr: "bogus://127.0.0.1:1"})
+			case "domainset":
+				cfg.DomainSets = append(cfg.DomainSets, DomainSetConfig{Tag: "ds", Files: []string{"/nonexistent/vf-c18-domain-set.txt"}})
+			case "rule":
+				cfg.Rules = append([]RuleConfig{{Forward: "no-such-upstream"}}, cfg.Rules...)
+			}
+		}
 		var held interface{ Close() error }
 		if failIdx >= 0 {
 			a := addrs[failIdx]
@@ -109,10 +126,25 @@ func TestVfC18RunReleases(t *testing.T) {
 		if res.p != nil {
 			t.Fatalf("run() panicked instead of returning an error: %v (listeners %v, failing index %d)", res.p, addrs, failIdx)
 		}
-		if failIdx >= 0 {
+		if failIdx < 0 && failStage != "none" {
+			if res.err == nil {
+				res.r.close(nil)
+				t.Fatalf("run() succeeded with a broken %s", failStage)
+			}
+			if cfg.Metrics.Addr != "" {
+				if err := vfBindable("tcp", cfg.Metrics.Addr, time.Second); err != nil {
+					t.Fatalf("the metrics endpoint %s is still bound 1 s after run() failed in stage %s: %v", cfg.Metrics.Addr, failStage, err)
+				}
+			}
+		} else if failIdx >= 0 {
 			if res.err == nil {
 				res.r.close(nil)
 				t.Fatalf("run() succeeded although %s was already bound", addrs[failIdx].addr)
+			}
+			if cfg.Metrics.Addr != "" {
+				if err := vfBindable("tcp", cfg.Metrics.Addr, time.Second); err != nil {
+					t.Fatalf("the metrics endpoint %s is still bound 1 s after run() returned the error of listener %d: %v", cfg.Metrics.Addr, failIdx, err)
+				}
 			}
 			for i := 0; i < failIdx; i++ {
 				if err := vfBindable(addrs[i].proto, addrs[i].addr, time.Second); err != nil {
@@ -142,9 +174,14 @@ func TestVfC18RunReleases(t *testing.T) {
 					t.Fatalf("listener %d (%s %s) is still bound 1 s after close(): %v", i, addrs[i].kind, addrs[i].addr, err)
 				}
 			}
+			if cfg.Metrics.Addr != "" {
+				if err := vfBindable("tcp", cfg.Metrics.Addr, time.Second); err != nil {
+					t.Fatalf("the metrics endpoint %s is still bound 1 s after close(): %v", cfg.Metrics.Addr, err)
+				}
+			}
 		}
-		st.Case(vfkit.Fingerprint(fmt.Sprint(addrs), failIdx), failIdx != 0, []string{fmt.Sprintf("fail=%v", failIdx >= 0)}, func() any {
-			return map[string]any{"listeners": fmt.Sprint(addrs), "failing_index": failIdx}
+		st.Case(vfkit.Fingerprint(fmt.Sprint(addrs), failIdx, failStage, cfg.Metrics.Addr), failIdx != 0, []string{fmt.Sprintf("fail=%v", failIdx >= 0 || failStage != "none"), "stage=" + failStage, fmt.Sprintf("metrics=%v", cfg.Metrics.Addr != "")}, func() any {
+			return map[string]any{"listeners": fmt.Sprint(addrs), "failing_index": failIdx, "failing_stage": failStage, "metrics": cfg.Metrics.Addr}
 		})
 	})
 }
